@@ -89,13 +89,56 @@ def make_jobs(chk):
     return jobs
 
 
+def tlc_generated_jobs(chk):
+    """direction C: TLC explores the specification's own command graph (spec/mc/Gen_Histories.tla: step / rewind / refused rewind / exec on
+    a catalogue of sessions, real limits) and prints one shortest command history per reachable specification state; the maximal
+    histories are replayed into the real code and judged by TLC like every other execution"""
+    import tlc, re
+    r = tlc.run_tlc("mc", "Gen_Histories", "Gen_Histories_%s.cfg" % chk.tier, workers=8, xmx="8g", timeout=3000, scratch=chk.scratch)
+    if r.verdict != "ok":
+        raise checklib.Infra("Gen_Histories did not finish: " + r.out[-1500:])
+    chk.states += r.distinct; chk.transitions += r.generated
+    chk.mc_runs.append({"module": "Gen_Histories", "cfg": "Gen_Histories_%s.cfg" % chk.tier, "distinct": r.distinct, "generated": r.generated, "verdict": "ok"})
+    cat, hist = None, {}
+    for line in r.out.splitlines():
+        m = re.match(r'^<<"(GEN|CAT)", "(.*)">>$', line)
+        if not m: continue
+        obj = json.loads(m.group(2).replace('\\"', '"'))
+        if m.group(1) == "CAT":
+            cat = {c["name"]: c for c in obj}
+        else:
+            hist.setdefault(obj["name"], []).append(tuple(obj["cmds"]))
+    if not cat or not hist:
+        raise checklib.Infra("Gen_Histories printed no behaviours")
+    jobs = []
+    n = 0
+    total = 0
+    for name, hs in sorted(hist.items()):
+        total += len(hs)
+        hs = sorted(set(hs))
+        # keep the maximal histories (a history that is a proper prefix of another one is covered by it)
+        prefixes = set()
+        for h in hs:
+            for k in range(len(h)):
+                prefixes.add(h[:k])
+        c = cat[name]
+        for h in hs:
+            if h in prefixes: continue
+            n += 1
+            jobs.append(SessionJob("g%d:%s" % (n, name), bytes(c["script"]), [bytes(x) for x in c["stack"]], sorted(c["flags"]), c["sigver"], succ=bytes(c["succ"]),
+                                   cmds=list(h) + ["run"], cmp=CMP, hist=True, weight=c["weight"]))
+    chk.notes.append("Gen_Histories (TLC): %d reachable specification states -> %d maximal command histories replayed into the code" % (total, len(jobs)))
+    chk.extra_cov["tlc_generated_histories"] = len(jobs)
+    return jobs
+
+
 def run(chk):
     quick = chk.tier == "quick"
     chk.mc("MC_Rewind", "MC_Rewind.cfg")
     chk.mc("MC_Rewind", "MC_Rewind_tree.cfg")
     chk.mc("MC_Rewind", "MC_Rewind_partial.cfg", must_hold=False)   # negative model: the 4-component history is refuted
     chk.build()
-    jobs = make_jobs(chk) + c01.probes(chk)
+    jobs = make_jobs(chk) + tlc_generated_jobs(chk) + c01.probes(chk)
     divs = chk.validate("Trace_Session", jobs, "c04")
     chk.classify(divs)
     return chk.finish(rule=RULE, assumptions=ASSUME)
